@@ -7,13 +7,14 @@ LEVEL_TEXT = ("Coq theorems over ALL schedules of the listener/WaitGroup/session
               "model with real smtp.Server / pop3.Server on ephemeral ports, a real hub, store and retention scanner.")
 LEVEL_NOTE = ("The theorems are about coq/Model/Lifecycle.v and Model/Hub.v. Accept+wg.Add of the accept loop is ONE step of the model "
               "(the window between Accept() returning and wg.Add in the serve goroutine is not modelled; it cannot be forced from outside). "
-              "The session's protocol dialogue is abstracted to positions (greeted … DATA in flight / DELE marked); the full dialogues are "
+              "The session's protocol dialogue is abstracted to positions (greeted … DATA in flight / DELE marked / UPDATE); the full dialogues are "
               "C01/C03/C13's. Not modelled: the kernel's listen backlog, timedExit's 15 s, TLS. The tie between model and code is sampled.")
 TECHNIQUE = "machine-checked proof in Coq + model/code correspondence check"
 DESIGN_REF = "DESIGN.md §4 C19"
 RULE = ("life: one line = a schedule run by one goroutine against real servers started on 127.0.0.1:0 under one context: up to 3 sessions "
         "(SMTP/POP3) parked in a protocol position (greeted, HELO, MAIL, RCPT, DATA accepted, body half sent; USER, PASS, DELE marked), an "
-        "SMTP session held before it starts (verifhook smtp.session.start), cancel, then client activity (advance, finish with QUIT, drop), "
+        "SMTP or POP3 session held before it starts (verifhook smtp.session.start / pop3.session.start), a POP3 QUIT whose deletions wait in a gated "
+        "store (wrapper around storage.Store handed to pop3.NewServer), cancel, then client activity (advance, finish with QUIT, drop), "
         "fresh connection attempts and Drain calls in a random order; each case in its own process. ret: retention scanner Start/Join and "
         "DoScan cancelled before / in the middle / never. distinct = distinct input line; non-trivial = a session is open when cancel "
         "happens (life) or the scan is cancelled (ret).")
